@@ -335,6 +335,130 @@ def check_span_history(chk, states, f):
 
 
 # ------------------------------------------------------------------------------------------------
+# ---- code -> spec: recorded span histories validated by TLC against TraceSpans.tla ---------------------------------------------
+def _observe_span(w, span):
+    """What can be observed of a real span through the public API, in the format of Spans!Observe."""
+    if span is None:
+        return {"resolved": False, "none": True}
+    if span.needs_resolve:
+        probes = []
+        for (cs, ce) in ((1, 5), (6, 2)):
+            probes.append(tuple(int(x - w.base) for x in span.resolve(w.ctx(cs, ce))))
+        return {"resolved": False, "none": False, "st": int(span.step), "openS": not bool(span.start), "openE": not bool(span.end), "probes": tuple(probes)}
+    it = tuple(int(x - w.base) for x in span)
+    return {"resolved": True, "none": False, "s": int(span.start - w.base), "e": int(span.end - w.base), "st": int(span.step), "len": len(span), "iter": it}
+
+
+def _rand_bound(rnd):
+    r = rnd.random()
+    if r < 0.6:
+        return ("abs", rnd.randint(-20, 20))
+    return (rnd.choice(("start", "end")), rnd.randint(-5, 5))
+
+
+def _rand_span_op(rnd):
+    kind = rnd.choice(("reverse", "reversed", "copy", "shift_start", "shift_end", "shift", "add", "radd", "sub", "rstep", "lstep", "resolve", "resolve"))
+    if kind in ("reverse", "reversed", "copy"):
+        return (kind,)
+    if kind in ("rstep", "lstep"):
+        return (kind, rnd.choice((-6, -4, -3, -2, -1, 1, 2, 3, 5, 6)))
+    if kind == "resolve":
+        return ("resolve", rnd.randint(-8, 8), rnd.randint(-8, 8))
+    return (kind, rnd.randint(-9, 9))
+
+
+def record_span_trace(rnd, f, nsteps):
+    w = SpanWorld(f)
+    init = {"s": _rand_bound(rnd), "e": _rand_bound(rnd), "st": rnd.choice((-5, -3, -2, -1, 1, 1, 2, 3, 4, 6))}
+    span = w.span(init)
+    trace = {"init": init, "obs0": _observe_span(w, span), "steps": ()}
+    steps = []
+    for _ in range(nsteps):
+        op = _rand_span_op(rnd)
+        raised, res = False, None
+        try:
+            res = w.apply(span, op)
+        except MachineryError:
+            raise
+        except Exception:
+            raised = True
+        recv = _observe_span(w, span)
+        robs = _observe_span(w, res) if (res is not None and not raised) else {"resolved": False, "none": True}
+        steps.append({"op": op, "raised": raised, "recv": recv, "res": robs, "alias": res is span})
+        if res is not None and not raised:
+            span = res
+        if not span.needs_resolve and (abs(span.start - w.base) > 200 or abs(span.end - w.base) > 200):
+            break
+    trace["steps"] = tuple(steps)
+    return trace
+
+
+def span_trace_direction(chk, ntraces, nsteps):
+    import random, copy
+    from .. import tracecheck
+    rnd = random.Random(chk.seed * 7561 + 9)
+    traces, freqs = [], []
+    for i in range(ntraces):
+        f = "QMDIYH"[i % 6]
+        t = record_span_trace(rnd, f, nsteps)
+        for j, st in enumerate(t["steps"]):
+            if st["alias"]:
+                chk.mismatch("span-trace:alias", "recorded span history (%s): step %d %s returned the receiver itself" % (f, j + 1, _plain(st["op"])), {"kind": "span-trace", "freq": f, "trace": _plain(t)})
+        traces.append(t)
+        freqs.append(f)
+    lit = [{"init": t["init"], "obs0": t["obs0"], "steps": tuple({k: v for k, v in st.items() if k != "alias"} for st in t["steps"])} for t in traces]
+    rejected, _, r = tracecheck.validate_literal_parallel("TraceSpans", "TraceSpans.cfg", "Spans", {}, lit, chk.scratch, chunks=8, timeout=3600)
+    nsteps_total = sum(len(t["steps"]) for t in traces)
+    chk.tlc_runs.append({"run": "TraceSpans (recorded histories)", "generated": r.generated, "distinct": r.distinct, "traces": len(traces), "steps": nsteps_total, "wall_s": round(r.wall, 1)})
+    chk.states += r.distinct
+    chk.transitions += r.generated
+    diag = {}
+    if rejected:
+        idx = sorted(rejected)
+        _, d2, _ = tracecheck.validate_literal("TraceSpans", "TraceSpansDiag.cfg", "Spans", {}, [lit[i] for i in idx], chk.scratch, timeout=1800, tag="diag")
+        for x in d2:
+            if isinstance(x, tuple) and len(x) > 3 and isinstance(x[1], int):
+                diag.setdefault((idx[x[1] - 1], x[2]), x)
+    for i, line in sorted(rejected.items()):
+        t = traces[i]
+        st = t["steps"][line - 1] if 0 < line <= len(t["steps"]) else None
+        if st is None:
+            chk.mismatch("span-trace:init", "recorded span history (%s): the fresh span %s is observed as %s" % (freqs[i], _plain(t["init"]), _plain(t["obs0"])), {"kind": "span-trace", "freq": freqs[i], "trace": _plain(lit[i])})
+            continue
+        d = diag.get((i, line))
+        chk.mismatch("span-trace:%s" % st["op"][0], "recorded span history (%s) is not a behaviour of Spans.tla: step %d %s raised=%s; observed receiver %s, result %s; the spec predicts (rejected, receiver, result) %s; "
+                     "operations so far %s on %s" % (freqs[i], line, _plain(st["op"]), st["raised"], _plain(st["recv"]), _plain(st["res"]), _plain(d[3:]) if d else "?",
+                                                       [_plain(s_["op"]) for s_ in t["steps"][:line - 1]], _plain(t["init"])), {"kind": "span-trace", "freq": freqs[i], "trace": _plain(lit[i]), "line": line})
+    # a history with one corrupted observation must be rejected at exactly that line
+    corrupted, expect = [], []
+    for i, t in enumerate(lit):
+        if i in rejected or len(t["steps"]) < 4:
+            continue
+        j = len(t["steps"]) // 2
+        c = copy.deepcopy(t)
+        o = dict(c["steps"][j]["recv"])
+        if o.get("resolved"):
+            o["len"] = o["len"] + 1
+        elif not o.get("none"):
+            o["st"] = o["st"] + 1
+        else:
+            continue
+        steps = list(c["steps"]); steps[j] = dict(steps[j], recv=o); c["steps"] = tuple(steps)
+        corrupted.append(c)
+        expect.append(j + 1)
+        if len(corrupted) >= 4:
+            break
+    if corrupted:
+        rej2, _, _ = tracecheck.validate_literal("TraceSpans", "TraceSpans.cfg", "Spans", {}, corrupted, chk.scratch, timeout=1800, tag="corrupt")
+        got = [rej2.get(i) for i in range(len(corrupted))]
+        if got != expect:
+            raise MachineryError("TraceSpans: corrupted histories were rejected at lines %s, expected %s (trace validation does not bind)" % (got, expect))
+        chk.notes["corrupted_span_histories_rejected"] = len(corrupted)
+    chk.traces += len(traces)
+    chk.notes["recorded_span_histories_validated_by_tlc"] = len(traces)
+    chk.notes["recorded_span_steps"] = nsteps_total
+
+
 def run(chk):
     rnd = random.Random(chk.seed)
     thorough = chk.tier == "thorough"
@@ -381,6 +505,7 @@ def run(chk):
     chk.notes["span_histories_replayed"] = len(files)
     chk.notes["span_transitions_replayed"] = n
     chk.notes["periods_replayed"] = len(scen)
+    span_trace_direction(chk, 3000 if thorough else 400, 14)
     chk.exhaustive = True
     chk.rule = ("periods: every period of the configured calendar windows (all regular periods of the listed years, every day of the "
                 "listed day-years, integer serials) x 17 offsets x 4 keyword shifts; spans: every (span state, operation) pair of "
